@@ -349,7 +349,9 @@ class Check(common.Check):
     PROP = 'C17'
     LEAN_TARGETS = ['Sc3Verif.C17.Props']
     LEAN_DIRS = ['Sc3Verif/C17']
-    THEOREMS = ['Sc3Verif.C17.' + t for t in ()]
+    THEOREMS = ['Sc3Verif.C17.' + t for t in (
+        'emitted_conforms', 'embedL_pairs', 'bind_one_bundle_in_order', 'unbound_sends_each',
+        'bind_nested_appends', 'bind_raises_sends_nothing', 'bind_preserves_issue_order')]
     N_QUICK = 400
     N_THOROUGH = 6000
     ASSUMPTIONS = []
